@@ -15,6 +15,15 @@
 //   - shapeRows: verifyPartialSig really verifies under the share looked up for its pubkey argument;
 //     NewComponent leaves insecureTest unset; handle consults the gater before anything else.
 //
+// One level of same-package helper is followed: an UNEXPORTED method of Component whose only dealing
+// with partial signatures is to hand one or more of its own ParSignedDataSet parameters, untouched, to
+// every element of `c.subs` in top-level `for _, sub := range c.subs` loops (a "fan-out helper", see
+// asFanOutHelper) gets no row of its own; each call of it is treated, in the calling method, as the
+// subscriber loop itself standing at the call statement, with the helper's set parameters replaced by
+// the call's arguments (the helper's body inlined at the call site for the check "verification
+// dominates fan-out"). Such a helper may only be called (never used as a method value), only from
+// methods of Component, and must not itself call a function that reaches `c.subs`.
+//
 // Go it does not understand makes it exit 1 (a handler it understands but that does not verify
 // yields a row with `false`, which makes theorem every_endpoint_verifies false).
 package main
@@ -41,9 +50,156 @@ func fail(f string, a ...any) {
 }
 
 type pkgCtx struct {
-	pkg  *packages.Package
-	info *types.Info
-	fset *token.FileSet
+	pkg     *packages.Package
+	info    *types.Info
+	fset    *token.FileSet
+	helpers map[types.Object]*helperInfo // fan-out helpers of this package (validatorapi only)
+}
+
+// helperInfo describes a fan-out helper: which of its (flattened) parameters it hands to the subscribers.
+type helperInfo struct {
+	decl      *ast.FuncDecl
+	nParams   int
+	setParams []int
+}
+
+// insertsInto reports whether fn inserts into a ParSignedDataSet or builds a non-trivial literal of it.
+func (p *pkgCtx) touchesSets(fn *ast.FuncDecl) bool {
+	found := false
+	ast.Inspect(fn.Body, func(n ast.Node) bool {
+		switch s := n.(type) {
+		case *ast.AssignStmt:
+			for _, l := range s.Lhs {
+				if ix, ok := l.(*ast.IndexExpr); ok {
+					if tv, ok := p.info.Types[ix.X]; ok && p.isParSignedDataSet(tv.Type) {
+						found = true
+					}
+				}
+			}
+		case *ast.CompositeLit:
+			if tv, ok := p.info.Types[s]; ok && p.isParSignedDataSet(tv.Type) {
+				found = true
+			}
+		}
+		return true
+	})
+	return found
+}
+
+// asFanOutHelper: fd is an unexported method of Component, free of labels / goto / function literals /
+// go statements, that neither inserts into nor constructs a ParSignedDataSet, mentions `c.subs` only as
+// the operand of top-level `for _, sub := range c.subs` loops, and in those loops calls `sub` only with
+// (…, …, P) where P is one of fd's own parameters, of type core.ParSignedDataSet, never assigned,
+// address-taken or incremented in fd. Returns nil if fd is not of that form (it is then analysed as a
+// handler, which fails closed on whatever made it differ).
+func (p *pkgCtx) asFanOutHelper(fd *ast.FuncDecl) *helperInfo {
+	if recvTypeName(fd) != "Component" || ast.IsExported(fd.Name.Name) || fd.Type.TypeParams != nil {
+		return nil
+	}
+	plain := true
+	ast.Inspect(fd.Body, func(n ast.Node) bool {
+		switch s := n.(type) {
+		case *ast.LabeledStmt, *ast.FuncLit, *ast.GoStmt:
+			plain = false
+		case *ast.BranchStmt:
+			if s.Tok == token.GOTO || s.Label != nil {
+				plain = false
+			}
+		}
+		return true
+	})
+	if !plain || p.touchesSets(fd) {
+		return nil
+	}
+	params := map[types.Object]int{}
+	n := 0
+	for _, f := range fd.Type.Params.List {
+		if _, variadic := f.Type.(*ast.Ellipsis); variadic {
+			return nil
+		}
+		if len(f.Names) == 0 {
+			n++
+			continue
+		}
+		for _, nm := range f.Names {
+			if o := p.info.Defs[nm]; o != nil {
+				params[o] = n
+			}
+			n++
+		}
+	}
+	h := &helperInfo{decl: fd, nParams: n}
+	loops := 0
+	for _, s := range fd.Body.List {
+		rs, ok := p.isSubsRange(s, "Component")
+		if !ok {
+			continue
+		}
+		loops++
+		sets, ok := p.subCallSets(rs)
+		if !ok {
+			return nil
+		}
+		for _, set := range sets {
+			o := p.obj(set)
+			idx, isParam := params[o]
+			if o == nil || !isParam || !p.isParSignedDataSet(o.Type()) || p.writes(fd, o) != 0 {
+				return nil
+			}
+			h.setParams = append(h.setParams, idx)
+		}
+	}
+	mentions := 0
+	ast.Inspect(fd.Body, func(n ast.Node) bool {
+		if e, ok := n.(ast.Expr); ok && p.isField(e, "Component", "subs") {
+			mentions++
+		}
+		return true
+	})
+	if loops == 0 || mentions != loops {
+		return nil
+	}
+	sort.Ints(h.setParams)
+	return h
+}
+
+// helperCallExpr: e is a call `<x>.<helper>(…)` of a fan-out helper.
+func (p *pkgCtx) helperCallExpr(e ast.Expr) (*ast.CallExpr, *helperInfo) {
+	c, ok := ast.Unparen(e).(*ast.CallExpr)
+	if !ok {
+		return nil, nil
+	}
+	se, ok := ast.Unparen(c.Fun).(*ast.SelectorExpr)
+	if !ok {
+		return nil, nil
+	}
+	h := p.helpers[p.info.Uses[se.Sel]]
+	if h == nil {
+		return nil, nil
+	}
+	return c, h
+}
+
+// stmtHelperCall: the statement evaluates exactly one helper call as its own expression:
+// `c.h(…)`, `x := c.h(…)` / `x = c.h(…)`, `return c.h(…)`, `if x := c.h(…); cond { … }`.
+func (p *pkgCtx) stmtHelperCall(s ast.Stmt) (*ast.CallExpr, *helperInfo) {
+	switch x := s.(type) {
+	case *ast.ExprStmt:
+		return p.helperCallExpr(x.X)
+	case *ast.AssignStmt:
+		if len(x.Rhs) == 1 {
+			return p.helperCallExpr(x.Rhs[0])
+		}
+	case *ast.ReturnStmt:
+		if len(x.Results) == 1 {
+			return p.helperCallExpr(x.Results[0])
+		}
+	case *ast.IfStmt:
+		if x.Init != nil {
+			return p.stmtHelperCall(x.Init)
+		}
+	}
+	return nil, nil
 }
 
 func (p *pkgCtx) str(n ast.Node) string {
@@ -467,36 +623,62 @@ func (p *pkgCtx) analyseHandler(fn *ast.FuncDecl) row {
 		bad(&r.sameVal, "no insertion into a ParSignedDataSet found")
 	}
 
-	// locate the subscriber loops
+	// locate the subscriber loops, and the calls of fan-out helpers (each stands for the helper's loops)
 	type site struct {
-		top   int            // index in body of the top-level statement containing the loop
-		outer *ast.RangeStmt // enclosing `for k, v := range M` (nil: the loop is top-level)
-		loop  *ast.RangeStmt
+		top    int            // index in body of the top-level statement containing the loop
+		outer  *ast.RangeStmt // enclosing `for k, v := range M` (nil: the loop is top-level)
+		loop   *ast.RangeStmt // nil for a helper call
+		call   *ast.CallExpr  // call of a fan-out helper
+		helper *helperInfo
 	}
 	var sites []site
-	for i, s := range body {
+	nLoops, nCalls := 0, 0
+	addSite := func(i int, outer *ast.RangeStmt, s ast.Stmt) bool {
 		if rs, ok := p.isSubsRange(s, "Component"); ok {
-			sites = append(sites, site{i, nil, rs})
+			sites = append(sites, site{top: i, outer: outer, loop: rs})
+			nLoops++
+			return true
+		}
+		if c, h := p.stmtHelperCall(s); c != nil {
+			sites = append(sites, site{top: i, outer: outer, call: c, helper: h})
+			nCalls++
+			return true
+		}
+		return false
+	}
+	for i, s := range body {
+		if addSite(i, nil, s) {
 			continue
 		}
 		if outer, ok := s.(*ast.RangeStmt); ok {
 			for _, in := range outer.Body.List {
-				if rs, ok := p.isSubsRange(in, "Component"); ok {
-					sites = append(sites, site{i, outer, rs})
-				}
+				addSite(i, outer, in)
 			}
 		}
 	}
-	// every mention of c.subs must be one of these loops
-	mentions := 0
+	// every mention of c.subs must be one of these loops, every helper call one of these statements
+	mentions, helperCalls := 0, 0
 	ast.Inspect(fn.Body, func(n ast.Node) bool {
-		if e, ok := n.(ast.Expr); ok && p.isField(e, "Component", "subs") {
-			mentions++
+		if e, ok := n.(ast.Expr); ok {
+			if p.isField(e, "Component", "subs") {
+				mentions++
+			}
+			if c, _ := p.helperCallExpr(e); c != nil {
+				if _, isParen := e.(*ast.ParenExpr); !isParen {
+					helperCalls++
+				}
+			}
 		}
 		return true
 	})
-	if mentions != len(sites) || len(sites) == 0 {
-		fail("%s: %d uses of c.subs but %d understood subscriber loops", fn.Name.Name, mentions, len(sites))
+	if mentions != nLoops {
+		fail("%s: %d uses of c.subs but %d understood subscriber loops", fn.Name.Name, mentions, nLoops)
+	}
+	if helperCalls != nCalls {
+		fail("%s: %d calls of a fan-out helper but %d understood call statements", fn.Name.Name, helperCalls, nCalls)
+	}
+	if len(sites) == 0 {
+		fail("%s: no subscriber loop and no call of a fan-out helper found", fn.Name.Name)
 	}
 
 	firstSub := sites[0].top
@@ -574,9 +756,21 @@ func (p *pkgCtx) analyseHandler(fn *ast.FuncDecl) row {
 
 	// what is handed to the subscribers must be one of the sets accounted for above
 	for _, st := range sites {
-		sets, ok := p.subCallSets(st.loop)
-		if !ok {
-			fail("%s: subscriber loop at %s not understood", fn.Name.Name, p.pos(st.loop))
+		var sets []ast.Expr
+		if st.loop != nil {
+			var ok bool
+			sets, ok = p.subCallSets(st.loop)
+			if !ok {
+				fail("%s: subscriber loop at %s not understood", fn.Name.Name, p.pos(st.loop))
+			}
+		} else {
+			// the helper's body inlined: its subscriber calls receive these arguments
+			if len(st.call.Args) != st.helper.nParams || st.call.Ellipsis != token.NoPos {
+				fail("%s: call of %s at %s not understood", fn.Name.Name, st.helper.decl.Name.Name, p.pos(st.call))
+			}
+			for _, idx := range st.helper.setParams {
+				sets = append(sets, st.call.Args[idx])
+			}
 		}
 		for _, set := range sets {
 			tv, ok := p.info.Types[set]
@@ -760,7 +954,7 @@ func main() {
 		if len(pk.Errors) > 0 {
 			fail("package %s: %v", pk.PkgPath, pk.Errors[0])
 		}
-		byName[pk.Name] = &pkgCtx{pk, pk.TypesInfo, pk.Fset}
+		byName[pk.Name] = &pkgCtx{pkg: pk, info: pk.TypesInfo, fset: pk.Fset}
 	}
 	va, px := byName["validatorapi"], byName["parsigex"]
 	if va == nil || px == nil {
@@ -769,9 +963,10 @@ func main() {
 
 	// ---- validatorapi: direct subscriber sites, call graph, rows ------------------------------
 	type fnInfo struct {
-		decl    *ast.FuncDecl
-		direct  bool
-		callees map[types.Object]bool
+		decl      *ast.FuncDecl
+		direct    bool
+		viaHelper bool // calls a fan-out helper
+		callees   map[types.Object]bool
 	}
 	fns := map[types.Object]*fnInfo{}
 	var order []types.Object
@@ -812,11 +1007,64 @@ func main() {
 			order = append(order, o)
 		}
 	}
+	// fan-out helpers (one level): direct, of the helper form, calling no other function that reaches c.subs
+	va.helpers = map[types.Object]*helperInfo{}
+	for _, o := range order {
+		fi := fns[o]
+		if !fi.direct || fi.decl.Name.Name == "Subscribe" {
+			continue
+		}
+		callsDirect := false
+		for c := range fi.callees {
+			if ci, ok := fns[c]; ok && ci.direct && ci.decl.Name.Name != "Subscribe" {
+				callsDirect = true
+			}
+		}
+		if callsDirect {
+			continue
+		}
+		if h := va.asFanOutHelper(fi.decl); h != nil {
+			va.helpers[o] = h
+		}
+	}
+	// a helper may only be called, and only from methods of Component (which are then analysed as handlers)
+	if len(va.helpers) > 0 {
+		inCallPos := map[*ast.Ident]bool{}
+		for _, f := range va.pkg.Syntax {
+			ast.Inspect(f, func(n ast.Node) bool {
+				if c, ok := n.(*ast.CallExpr); ok {
+					if se, ok := ast.Unparen(c.Fun).(*ast.SelectorExpr); ok {
+						inCallPos[se.Sel] = true
+					}
+				}
+				return true
+			})
+		}
+		for id, o := range va.info.Uses {
+			if h := va.helpers[o]; h != nil && !inCallPos[id] {
+				fail("fan-out helper %s used as a value at %s", h.decl.Name.Name, va.pos(id))
+			}
+		}
+		for _, o := range order {
+			fi := fns[o]
+			for c := range fi.callees {
+				if h := va.helpers[c]; h != nil {
+					if recvTypeName(fi.decl) != "Component" {
+						fail("fan-out helper %s called outside a method of Component: %s", h.decl.Name.Name, fi.decl.Name.Name)
+					}
+					fi.viaHelper = true
+				}
+			}
+		}
+	}
 	var rows []row
 	for _, o := range order {
 		fi := fns[o]
 		name := fi.decl.Name.Name
-		if fi.direct {
+		if va.helpers[o] != nil {
+			continue // accounted for at its call sites
+		}
+		if fi.direct || fi.viaHelper {
 			if recvTypeName(fi.decl) != "Component" {
 				fail("c.subs used outside a method of Component: %s", name)
 			}
@@ -836,7 +1084,7 @@ func main() {
 		}
 		// indirect reachability: a function that calls a direct one is not understood
 		for c := range fi.callees {
-			if ci, ok := fns[c]; ok && ci.direct && ci.decl.Name.Name != "Subscribe" {
+			if ci, ok := fns[c]; ok && (ci.direct || ci.viaHelper) && ci.decl.Name.Name != "Subscribe" {
 				r := row{method: name}
 				r.note("reaches c.subs through %s: not understood", ci.decl.Name.Name)
 				rows = append(rows, r)
